@@ -188,10 +188,20 @@ def build(tier='quick'):
         add(f'san-{fam}-with', 'full', decl_src(fam, f'sanitize({FAM_SAN[fam]})'), True, f'{fam}: documented sanitizer')
     for wrong in ('Trim', 'TRIM', 'tRim'):
         add(f'case-san-{wrong}', 'full', decl_src('string', f'sanitize({wrong})'), False, f'string: sanitizer spelled `{wrong}`')
-    for wrong in ('NotEmpty', 'notEmpty', 'lenCharMax = 3', 'LEN_CHAR_MAX = 3'):
+    # every multi-word name in the case styles a lenient name parser might accept: only snake_case is the grammar
+    for wrong in ('NotEmpty', 'notEmpty', 'lenCharMax = 3', 'LEN_CHAR_MAX = 3', 'notempty', 'NOTEMPTY', 'Not_Empty', 'lencharmin = 1', 'lencharmax = 3',
+                  'LenCharMin = 1', 'LENCHARMAX = 3', 'not_Empty', 'len_charmax = 3'):
         add(f'case-val-{wrong.split(" ")[0]}', 'full', decl_src('string', f'validate({wrong})'), False, f'string: validator spelled `{wrong}`')
-    for wrong in ('Finite', 'greaterOrEqual = 1.0', 'GreaterOrEqual = 1.0'):
+    for wrong in ('Finite', 'greaterOrEqual = 1.0', 'GreaterOrEqual = 1.0', 'greaterorequal = 1.0', 'lessorequal = 1.0', 'GREATER_OR_EQUAL = 1.0', 'FINITE',
+                  'lessOrEqual = 1.0', 'LESSOREQUAL = 1.0', 'greater_orequal = 1.0'):
         add(f'case-fval-{wrong.split(" ")[0]}', 'full', decl_src('float', f'validate({wrong})'), False, f'float: validator spelled `{wrong}`')
+    for wrong in ('greaterorequal = 1', 'lessorequal = 9', 'GreaterOrEqual = 1', 'LESS_OR_EQUAL = 9', 'Greater = 1', 'LESS = 9', 'Predicate = |x| *x > 0'):
+        add(f'case-ival-{wrong.split(" ")[0]}', 'full', decl_src('int', f'validate({wrong})'), False, f'int: validator spelled `{wrong}`')
+    for wrong in ('Predicate = |v| !v.is_empty()', 'PREDICATE = |v| !v.is_empty()', 'With = |v| v'):
+        add(f'case-aval-{wrong.split(" ")[0]}', 'full', decl_src('any', (f'validate({wrong})' if 'ith' not in wrong else f'sanitize({wrong})')), False,
+            f'any: item spelled `{wrong}`')
+    for wrong in ('LOWERCASE', 'Lowercase', 'lowerCase', 'lower_case', 'UpperCase', 'upper_case', 'With = |s| s'):
+        add(f'case-san2-{wrong.split(" ")[0]}', 'full', decl_src('string', f'sanitize({wrong})'), False, f'string: sanitizer spelled `{wrong}`')
     for wrong in ('debug', 'DEBUG', 'asref'):
         add(f'case-derive-{wrong}', 'full', decl_src('int', f'derive({wrong})'), False, f'int: trait spelled `{wrong}`')
 
